@@ -21,13 +21,15 @@ EXTENDS Integers, Sequences, FiniteSets, TLC, Json, IOUtils, JobLifeProps
 Trace == ndJsonDeserialize(IOEnv.VERIF_TRACE)
 N == Len(Trace)
 
-VARIABLES l, pass, edited, udel, ttlAt, ttlLB, taint, admTruth, listed, succRec, doneAt, viol
-vars == <<l, pass, edited, udel, ttlAt, ttlLB, taint, admTruth, listed, succRec, doneAt, viol>>
+VARIABLES l, pass, edited, udel, ttlAt, ttlLB, taint, admTruth, listed, succRec, doneAt, hf, viol
+vars == <<l, pass, edited, udel, ttlAt, ttlLB, taint, admTruth, listed, succRec, doneAt, hf, viol>>
 
 NoJob == [ex |-> FALSE, started |-> FALSE, st |-> 0, kill |-> 0, del |-> FALSE, fz |-> FALSE, adm |-> FALSE, phase |-> "", state |-> "",
           conds |-> 0, kind |-> "", result |-> "", fints |-> 0, created |-> 0, running |-> 0, refs |-> <<>>, rv |-> 0]
 NoPass == [now0 |-> 0, j |-> NoJob, p |-> <<>>, stale |-> FALSE, skew |-> FALSE]
 
+\* any injected fault or crash so far in this run (C20 attribution)
+IsFault(e) == ("f" \in DOMAIN e.l /\ e.l.f \notin {"", "ok"}) \/ e.ev \in {"CrashRestart", "Restart", "Crash"}
 Fail(name, ok) == IF ok THEN {} ELSE {name}
 EverOf(s) == {[name |-> p.name, idx |-> p.idx, retry |-> p.retry] : p \in Range(s.ever)}
 SuccOf(s) == Range(s.succ)
@@ -80,7 +82,7 @@ StepFails(e, p, ps, ed, ud, ta, tlb, li, da, srp) ==
     \cup Fail("C13_Order", C13_OrderStep(p.job, s.job, s.pods))
     \cup Fail("C13_TTLNotEarly", C13_TTLNotEarlyStep(c, p.job, s.job, ta, ud, da, tlb))
 
-Init == l = 1 /\ pass = NoPass /\ edited = FALSE /\ udel = FALSE /\ ttlAt = 0 /\ ttlLB = 0 /\ taint = "" /\ admTruth = FALSE /\ listed = {} /\ succRec = {} /\ doneAt = 0 /\ viol = {}
+Init == l = 1 /\ pass = NoPass /\ edited = FALSE /\ udel = FALSE /\ ttlAt = 0 /\ ttlLB = 0 /\ taint = "" /\ admTruth = FALSE /\ listed = {} /\ succRec = {} /\ doneAt = 0 /\ hf = FALSE /\ viol = {}
 
 Next ==
     /\ l <= N
@@ -119,8 +121,9 @@ Next ==
                  ELSE ""
        IN /\ pass' = ps /\ edited' = ed /\ udel' = ud /\ ttlAt' = ta /\ ttlLB' = tlb /\ taint' = tn /\ admTruth' = at
           /\ listed' = li /\ succRec' = sr /\ doneAt' = da
-          /\ viol' = viol \cup {[f |-> f, line |-> l, run |-> e.run, ev |-> e.ev, faulted |-> e.faulted,
-                                 taint |-> tn, adm |-> at, foreign |-> e.cfg.foreign] : f \in fs}
+          /\ hf' = IF e.ev = "Reset" THEN FALSE ELSE hf \/ IsFault(e)
+          /\ viol' = viol \cup {r \in {[f |-> f, line |-> l, run |-> e.run, ev |-> e.ev, faulted |-> e.faulted, af |-> (hf \/ IsFault(e)),
+                                 taint |-> tn, adm |-> at, foreign |-> e.cfg.foreign] : f \in fs} : ~\E v \in viol : v.f = r.f /\ v.run = r.run}   \* first failure of a formula in a run only
 Spec == Init /\ [][Next]_vars
 
 Report == (l = N + 1) => PrintT(<<"VERDICT", N, ToJson(viol)>>)
